@@ -160,6 +160,7 @@ TranslateStep(e) ==
                                                                  \* entry alone decides
           /\ IF w.k = "mapped"
              THEN /\ t.k = "mapped" /\ t.frame = w.frame /\ t.size = w.size /\ t.off = w.off
+                  /\ t.fsz = PowW(SizeBits(w.size))                 \* MappedFrame::size
                   /\ ReportedFlags(t) = w.flags
                   /\ e.x.ta = Ok(PhysOf(w))
              ELSE /\ t.k = "notmapped" /\ e.x.ta = None
@@ -206,6 +207,7 @@ Step(e) ==
       [] e.op = "setflags" -> SetFlagsStep(e)
       [] e.op = "translate_page" -> TranslatePageStep(e)
       [] e.op = "translate" -> TranslateStep(e)
+      [] e.op = "accessors" -> IF e.got = e.want THEN Same ELSE Fail   \* level_4_table(_mut), phys_offset
       [] e.op = "clean" -> CleanStep(e)
       [] OTHER -> Fail
 
